@@ -274,7 +274,15 @@ func (r *c21Run) step(op string) bool {
 		case 't':
 			f = debugFrameStopSending{id: id}
 		}
-		over := num >= r.adv[t]
+		lim := r.adv[t]
+		over := num >= lim
+		if !over {
+			// the model learns about the frame before the monitor looks at the conn's reaction
+			r.framed[t][num] = true
+			if kind == 'f' || kind == 'r' {
+				r.finKnown[t][num] = true
+			}
+		}
 		q.write(f)
 		r.observe(op)
 		if w.Failed() {
@@ -286,7 +294,7 @@ func (r *c21Run) step(op string) bool {
 				if q.closed {
 					got = fmt.Sprintf("CONNECTION_CLOSE %v", q.closeErr)
 				}
-				w.Failf("C21/over-limit-stream-not-rejected/"+string(kind), "peer sent %v on its %v stream number %d with the advertised limit %d: want CONNECTION_CLOSE STREAM_LIMIT_ERROR, got %s; cfg=%+v", f, t, num, r.adv[t], got, r.cfg)
+				w.Failf("C21/over-limit-stream-not-rejected/"+string(kind), "peer sent %v on its %v stream number %d with the advertised limit %d: want CONNECTION_CLOSE STREAM_LIMIT_ERROR, got %s; cfg=%+v", f, t, num, lim, got, r.cfg)
 				return false
 			}
 			w.Outcome("peer-frame:STREAM_LIMIT_ERROR")
@@ -294,12 +302,8 @@ func (r *c21Run) step(op string) bool {
 			return false
 		}
 		if q.closed {
-			w.Failf("C21/in-limit-stream-rejected/"+string(kind), "peer sent %v on its %v stream number %d, below the advertised limit %d, and the conn closed with %v; cfg=%+v", f, t, num, r.adv[t], q.closeErr, r.cfg)
+			w.Failf("C21/in-limit-stream-rejected/"+string(kind), "peer sent %v on its %v stream number %d, below the advertised limit %d, and the conn closed with %v; cfg=%+v", f, t, num, lim, q.closeErr, r.cfg)
 			return false
-		}
-		r.framed[t][num] = true
-		if kind == 'f' || kind == 'r' {
-			r.finKnown[t][num] = true
 		}
 		w.Outcome("peer-frame:accepted")
 		return true
@@ -433,32 +437,48 @@ func c21Exec(c *vx.Ctx, w *vx.W, cs c21Case) {
 // ---- enumeration ----------------------------------------------------------
 
 // c21Gen is the generator-side prediction used only to prune the enumeration
-// (the oracle never uses it).
+// (the oracle never uses it; a wrong prediction costs coverage, never an alarm).
 type c21Gen struct {
-	cfg       c21Cfg
-	accepted  int
-	framedN   int
-	closed    map[int]bool
-	nClose    int
-	locals    int
-	lclosed   map[int]bool
-	lmaxPred  int64
-	oLmaxPred int64
-	last      string
-	terminal  bool
+	cfg      c21Cfg
+	ops      map[string]bool
+	accepted int
+	framed   map[int64]bool // focus-type peer streams known to have received a frame
+	framedX  int            // further streams that may have received one (unresolved targets, other type)
+	closed   map[int]bool
+	nClose   int
+	locals   int
+	lclosed  map[int]bool
+	lmaxPred int64
+	last     string
+	terminal bool
 }
 
 func (g *c21Gen) clone() *c21Gen {
 	n := *g
-	n.closed = map[int]bool{}
+	n.closed, n.lclosed, n.framed = map[int]bool{}, map[int]bool{}, map[int64]bool{}
 	for k := range g.closed {
 		n.closed[k] = true
 	}
-	n.lclosed = map[int]bool{}
 	for k := range g.lclosed {
 		n.lclosed[k] = true
 	}
+	for k := range g.framed {
+		n.framed[k] = true
+	}
 	return &n
+}
+
+// resolve predicts the stream number of a target. While no accepted stream
+// has been closed the advertised limit is still the initial one.
+func (g *c21Gen) resolve(tgt string) (num int64, known bool) {
+	d, _ := strconv.ParseInt(tgt[1:], 10, 64)
+	if tgt[0] == '#' {
+		return d, true
+	}
+	if g.nClose == 0 {
+		return g.cfg.MaxRemote + d, true
+	}
+	return d, false
 }
 
 // enabled says whether op is worth generating after the current prefix.
@@ -469,7 +489,7 @@ func (g *c21Gen) enabled(op string) bool {
 	name, arg, _ := strings.Cut(op, ":")
 	switch {
 	case op == "acc":
-		return !(g.last == "acc" && g.accepted >= g.framedN)
+		return !(g.last == "acc" && g.accepted >= len(g.framed)+g.framedX)
 	case op == "ack":
 		return g.last != "ack"
 	case name == "close":
@@ -485,8 +505,11 @@ func (g *c21Gen) enabled(op string) bool {
 		if (op[1] == 'm' || op[1] == 't') && g.cfg.Styp != "bidi" {
 			return false
 		}
-		if op[2:] == "@-1" && g.cfg.MaxRemote == 0 {
-			return false
+		if op[2] == '@' {
+			num, known := g.resolve(op[2:])
+			if known && (num < 0 || g.ops[fmt.Sprintf("p%c#%d", op[1], num)]) {
+				return false // not applicable, or the same frame as an absolute-target op
+			}
 		}
 	}
 	return true
@@ -496,7 +519,7 @@ func (g *c21Gen) apply(op string) {
 	name, arg, _ := strings.Cut(op, ":")
 	switch {
 	case op == "acc":
-		if g.accepted < g.framedN {
+		if g.accepted < len(g.framed)+g.framedX {
 			g.accepted++
 		}
 	case name == "close":
@@ -518,24 +541,20 @@ func (g *c21Gen) apply(op string) {
 		if n >= c21OtherMaxRemote {
 			g.terminal = true
 		} else {
-			g.framedN++ // upper bound
+			g.framedX++ // upper bound
 		}
 	case strings.HasPrefix(op, "p"):
-		tgt := op[2:]
-		d, _ := strconv.ParseInt(tgt[1:], 10, 64)
-		if tgt[0] == '@' {
-			if d >= 0 {
-				g.terminal = true
-			} else {
-				g.framedN++
-			}
-		} else {
+		num, known := g.resolve(op[2:])
+		switch {
+		case !known && num >= 0: // limit+D, D >= 0
+			g.terminal = true
+		case !known:
+			g.framedX++ // upper bound
+		case num >= g.cfg.MaxRemote+int64(g.nClose):
 			// the advertised limit is at most MaxRemote + (streams closed so far)
-			if d >= g.cfg.MaxRemote+int64(g.nClose) {
-				g.terminal = true
-			} else {
-				g.framedN++
-			}
+			g.terminal = true
+		default:
+			g.framed[num] = true
 		}
 	}
 	g.last = op
@@ -547,7 +566,11 @@ func c21Enumerate(cfg c21Cfg, ops []string, depth int, yield func(c21Case) bool)
 		g    *c21Gen
 		path []string
 	}
-	level := []node{{g: &c21Gen{cfg: cfg, closed: map[int]bool{}, lclosed: map[int]bool{}, lmaxPred: cfg.PeerInit}}}
+	opset := map[string]bool{}
+	for _, o := range ops {
+		opset[o] = true
+	}
+	level := []node{{g: &c21Gen{cfg: cfg, ops: opset, closed: map[int]bool{}, lclosed: map[int]bool{}, framed: map[int64]bool{}, lmaxPred: cfg.PeerInit}}}
 	for d := 1; d <= depth; d++ {
 		var next []node
 		for _, nd := range level {
@@ -666,62 +689,73 @@ func c21Unit(c *vx.Ctx, maxOpen int64, depth int) {
 	})
 }
 
+type c21Part struct {
+	name  string
+	cfgs  []c21Cfg
+	ops   []string
+	depth int
+}
+
+func c21Parts(c *vx.Ctx) []c21Part {
+	sides := vx.Pick(c, []string{"server"}, []string{"server", "client"})
+	types := []string{"bidi", "uni"}
+	cfgs := func(maxRemote, peerInit []int64) (l []c21Cfg) {
+		for _, side := range sides {
+			for _, styp := range types {
+				for _, mr := range maxRemote {
+					for _, pi := range peerInit {
+						l = append(l, c21Cfg{Side: side, Styp: styp, MaxRemote: mr, PeerInit: pi})
+					}
+				}
+			}
+		}
+		return l
+	}
+	// every frame kind on every target, for short histories
+	var kinds []string
+	for _, k := range "sfrmt" {
+		for _, tg := range []string{"#0", "#1", "#2", "@-1", "@0", "@5"} {
+			kinds = append(kinds, fmt.Sprintf("p%c%s", k, tg))
+		}
+	}
+	kinds = append(kinds, "acc", "close:0", "ack")
+	remote := []string{"ps#0", "pf#0", "pr#0", "ps@-1", "pf@-1", "acc", "close:0", "close:1", "ack", "ps@0", "pr@0"}
+	return []c21Part{
+		// local stream creation against the peer's MAX_STREAMS
+		{"local", cfgs([]int64{1}, []int64{0, 1, 2}),
+			[]string{"new", "newb", "max:1", "max:2", "max:3", "omax:3", "onew"}, vx.Pick(c, 4, 5)},
+		// peer-created streams against the conn's advertised limit
+		{"remote-kinds", cfgs([]int64{0, 1, 2}, []int64{1}), kinds, vx.Pick(c, 2, 3)},
+		{"remote-1", cfgs([]int64{1}, []int64{1}), remote, vx.Pick(c, 6, 7)},
+		{"remote-0-2-3", cfgs([]int64{0, 2, 3}, []int64{1}), remote, vx.Pick(c, 4, 6)},
+		// the two stream types do not share a limit
+		{"cross-type", cfgs([]int64{1}, []int64{1}),
+			[]string{"pf#0", "ops#0", "ops#1", "acc", "close:0", "close:1", "ps@0", "ps@-1", "omax:3", "onew", "new"}, vx.Pick(c, 4, 5)},
+		// finishing local streams must not extend the peer's limit
+		{"mixed", cfgs([]int64{1}, []int64{1}),
+			[]string{"new", "lclose:0", "lpf:0", "ack", "pf#0", "acc", "close:0", "ps@0", "ps@-1", "max:1"}, vx.Pick(c, 5, 6)},
+	}
+}
+
 func TestVerif_C21(t *testing.T) {
 	vx.Run(t, "C21", func(c *vx.Ctx) {
-		c.Rule("q-peer: for every configuration (conn side, stream type in focus, configured Max*RemoteStreams 0..3, peer initial_max_streams 0..2) every sequence of enabled operations up to the stated depth, shortest first, each on a fresh handshaken Conn in its own synctest bubble; operations: local NewStream with cancelled / live context, peer MAX_STREAMS (any order, stale values), peer STREAM/FIN/RESET_STREAM/MAX_STREAM_DATA/STOP_SENDING on stream numbers {0,1,limit-1,limit,limit+5}, AcceptStream, Close of accepted/local streams, ACK of everything sent; a monitor reads every frame the conn sends after every step. Non-trivial = the whole sequence was executed on the real conn (or ended in the expected STREAM_LIMIT_ERROR at its last step). q-unit: BFS with state dedup over open/close/send on remoteStreamLimits.")
+		c.Rule("q-peer: for every configuration (conn side, stream type in focus, configured Max*RemoteStreams 0..3, peer initial_max_streams 0..2) every sequence of enabled operations up to the depth of the part, shortest first, each on a fresh handshaken Conn in its own synctest bubble; operations: local NewStream with cancelled / live context, peer MAX_STREAMS (any order, stale values), peer STREAM/FIN/RESET_STREAM/MAX_STREAM_DATA/STOP_SENDING on stream numbers {0,1,2,limit-1,limit,limit+5}, AcceptStream, Close of accepted/local streams, ACK of everything sent; a monitor reads every frame the conn sends after every step. Non-trivial = the whole sequence was executed on the real conn (or ended in the expected STREAM_LIMIT_ERROR at its last step). q-unit: BFS with state dedup over open/close/send on remoteStreamLimits.")
 		c.Assume("a peer stream counts as no longer open once its final size is known to the conn (FIN or RESET_STREAM received) and, for bidirectional streams, a packet carrying the conn's FIN or RESET_STREAM was acknowledged; this is the weakest reading of 'closed', so the simultaneous-streams bound is not over-strict")
-		c.Assume("no packet loss or reordering in this check (C20/C32 cover loss); the advertised limit is the one in frames the scripted peer has actually read")
-
-		sides := vx.Pick(c, []string{"server"}, []string{"server", "client"})
-		// part L: local stream creation against the peer's MAX_STREAMS
-		lops := []string{"new", "newb", "max:1", "max:2", "max:3", "omax:3", "onew"}
-		ldepth := vx.Pick(c, 4, 6)
-		// part R: peer-created streams against the conn's advertised limit
-		rops := []string{"ps#0", "ps@-1", "pf#0", "pf@-1", "pr#0", "acc", "close:0", "close:1", "ack", "ps#1", "ops#0",
-			"ps@0", "ps@5", "pr@0", "pm@0", "pt@0", "ops#1"}
-		rdepth := vx.Pick(c, 5, 6)
-		// part M: local and peer streams mixed (finishing local streams must not extend the peer's limit)
-		mops := []string{"new", "lclose:0", "lpf:0", "ack", "pf#0", "acc", "close:0", "ps@0", "ps@-1", "max:1"}
-		mdepth := vx.Pick(c, 5, 6)
+		c.Assume("no packet loss or reordering in this check (C20/C32 cover loss); the advertised limit is the one in frames the scripted peer has actually read; the other stream type is fixed at 1 remote / 0 local streams")
 
 		check := func(w *vx.W, cs c21Case) { c21Exec(c, w, cs) }
-		opts := vx.Opts{Serial: true, Crumb: true}
-		vx.Enumerate(c, "local", opts, func(yield func(c21Case) bool) {
-			for _, side := range sides {
-				for _, styp := range []string{"bidi", "uni"} {
-					for _, pi := range []int64{0, 1, 2} {
-						if !c21Enumerate(c21Cfg{Side: side, Styp: styp, MaxRemote: 1, PeerInit: pi}, lops, ldepth, yield) {
-							return
-						}
-					}
-				}
-			}
-		}, check)
-		vx.Enumerate(c, "remote", opts, func(yield func(c21Case) bool) {
-			for _, side := range sides {
-				for _, styp := range []string{"bidi", "uni"} {
-					for _, mr := range []int64{0, 1, 2, 3} {
-						if !c21Enumerate(c21Cfg{Side: side, Styp: styp, MaxRemote: mr, PeerInit: 1}, rops, rdepth, yield) {
-							return
-						}
-					}
-				}
-			}
-		}, check)
-		vx.Enumerate(c, "mixed", opts, func(yield func(c21Case) bool) {
-			for _, side := range sides {
-				for _, styp := range []string{"bidi", "uni"} {
-					if !c21Enumerate(c21Cfg{Side: side, Styp: styp, MaxRemote: 1, PeerInit: 1}, mops, mdepth, yield) {
+		for _, p := range c21Parts(c) {
+			vx.Enumerate(c, p.name, vx.Opts{Serial: true, Crumb: true}, func(yield0 func(c21Case) bool) {
+				yield := qpeerDeadlineYield(c, yield0)
+				for _, cfg := range p.cfgs {
+					if !c21Enumerate(cfg, p.ops, p.depth, yield) {
 						return
 					}
 				}
-			}
-		}, check)
-		c.Note("depth_local", ldepth)
-		c.Note("depth_remote", rdepth)
-		c.Note("depth_mixed", mdepth)
-
-		if s, _ := c.Shard(); s == 0 {
+			}, check)
+			c.Note("depth."+p.name, p.depth)
+		}
+		if s, _ := c.Shard(); s == 0 && !c.Expired() {
 			for _, mo := range []int64{0, 1, 2, 3, 8, 100} {
 				c21Unit(c, mo, vx.Pick(c, 8, 12))
 			}
